@@ -55,6 +55,9 @@ type checkpoint struct {
 }
 
 func (s *checkpoint) Save() {
+	s.saveLock.Lock()
+	defer s.saveLock.Unlock()
+
 	offsets, dirtyOffsets, anyDirtyOffset := s.stream.GetOffsets()
 
 	if !anyDirtyOffset {
@@ -62,8 +65,9 @@ func (s *checkpoint) Save() {
 		return
 	}
 
-	s.saveLock.Lock()
-	defer s.saveLock.Unlock()
+	// Take the dirty set over before dumping: an acknowledgement that arrives while the
+	// store call is in flight is recorded in the fresh set and picked up by the next save.
+	s.stream.UnmarkDirtyOffsets()
 
 	checkpointDump := map[uint16]*models.CheckpointDocument{}
 
@@ -106,9 +110,9 @@ func (s *checkpoint) Save() {
 
 	if err == nil {
 		logger.Log.Trace("saved checkpoint")
-		s.stream.UnmarkDirtyOffsets()
 	} else {
 		logger.Log.Error("error while saving checkpoint document: %v", err)
+		s.stream.MarkDirtyOffsets(dirtyOffsetsDump)
 	}
 }
 
